@@ -49,8 +49,11 @@ LEVEL_NOTE = "Trusts the node-count formula and snapshot function in this file a
 NODE_COUNT = {"value": 1, "svar": 2, "calc": 1, "tcalc": 1, "tident": 1, "wvar": 2, "igcalc": 2, "scalc": 2, "unode": 1, "pitvar": 2}
 
 
+_EXTRA = {"n": 0}    # nodes the current case adds besides the declarations (user-defined log-likelihood node)
+
+
 def expected_nodes(spec):
-    n = 3  # _model_log_lik / _model_log_prior / _model_log_prob
+    n = 3 + _EXTRA["n"]  # _model_log_lik / _model_log_prior / _model_log_prob
     for d in spec:
         k = d["kind"]
         if k == "dvar":
@@ -208,10 +211,14 @@ def gen():
     ).map(list)
     return st.fixed_dictionaries({"spec": gg.spec_strategy(min_nodes=3, max_nodes=10, allow_groups=True, allow_own_key=True), "build_copy": st.booleans(),
                                   "roots_only": st.booleans(), "ops": st.lists(op, min_size=1, max_size=12),
-                                  "entry": st.sampled_from(["builder", "builder", "model"])})
+                                  "entry": st.sampled_from(["builder", "builder", "model"]), "user_ll": st.booleans()})
 
 
 def rebuild(nodes, vars_, entry="builder"):
+    if "user_ll" in nodes:
+        gb = lsl.GraphBuilder().add(*nodes.values(), *vars_.values())
+        gb.log_lik_node = nodes["user_ll"]                           # the user designates the node again, as for the first build
+        return gb.build_model()
     if entry == "model":
         return lsl.Model([*nodes.values(), *vars_.values()])        # the documented shortcut: Model(...) grows the graph itself
     return lsl.GraphBuilder().add(*nodes.values(), *vars_.values()).build_model()
@@ -222,10 +229,19 @@ def oracle(case):
     det = lambda: f"spec={spec} build_copy={case['build_copy']} ops={ops}"  # noqa: E731
     b = gg.Built(spec)
     models = []
+    user_ll = bool(case.get("user_ll")) and not (case.get("entry") == "model" and not b.groups and not case["build_copy"])
+    _EXTRA["n"] = 1 if user_ll else 0
+
+    def designate(gb):
+        if user_ll:
+            # a user-defined log-likelihood node (GraphBuilder.log_lik_node): forwarded by _model_log_lik in every model built from this builder
+            gb.log_lik_node = lsl.Calc(lambda x: -jnp.sum(jnp.asarray(x, dtype=jnp.float32) ** 2), b.objs[0], _name="user_ll")
+        return gb
+
     used_as_input = {r for d in spec for r, _ in d["inputs"]}
     roots = [o for i, o in enumerate(b.objs) if i not in used_as_input] if case.get("roots_only") else list(b.objs)
     if case["build_copy"]:
-        gb = lsl.GraphBuilder().add(*roots)
+        gb = designate(lsl.GraphBuilder().add(*roots))
         if b.groups:
             gb.add_groups(*b.groups.values())
         m_copy = gb.build_model(copy=True)
@@ -240,7 +256,7 @@ def oracle(case):
         b.model = m
         models = [m]
     else:
-        gb = lsl.GraphBuilder().add(*roots)
+        gb = designate(lsl.GraphBuilder().add(*roots))
         if b.groups:
             gb.add_groups(*b.groups.values())
         m = gb.build_model()
